@@ -700,9 +700,11 @@ def stream_table_ws(run, rng, thorough):
                 uni_kept += 1
             else:
                 uni_dropped += 1
-                if any(k.get('signature') == SIG_UNI_SPACE for k in run.known):
-                    run.fail('U+%04X between table parts is dropped as if it were white space' % ord(t),
-                             {'stream': 'table-ws-doc', 'html': html}, signature=SIG_UNI_SPACE)
+                if uni_dropped == 1:
+                    run.fail('U+%04X between table parts is dropped as if it were white space (CSS 2.1: white space is space, tab, '
+                             'LF, CR, FF only; this text must generate a box)' % ord(t),
+                             {'stream': 'table-ws-doc', 'html': html, 'html_without': cases[2 * i + 1]['html'], 'texts': o1['texts'],
+                              'must_contain': t}, signature=SIG_UNI_SPACE)
             continue
         judged += 1
         seen.add((ws, shape, t))
@@ -1547,7 +1549,11 @@ def replay(data):
         if s1 != 'ok' or s2 != 'ok':
             print('replay:', s1, s2)
             return 1
-        diff = [k for k in ('tree', 'tables', 'texts', 'post') if o1[k] != o2[k]]
+        if d.get('must_contain'):
+            ok = any(d['must_contain'] in x for x in o1['texts'])
+            print('replay: texts', o1['texts'], 'contains it:', ok)
+            return 0 if ok else 1
+        diff = [k for k in ('tree', 'tables', 'texts', 'post') if o1.get(k) != o2.get(k)]
         print('replay: differs in', diff, o1['texts'], o2['texts'])
         return 1 if diff else 0
     if stream == 'table-ws-direct':
